@@ -198,6 +198,14 @@ func c18World(cs *explore.Case, c *report.Collector, l *report.Local, tier strin
 					if ip == len(cs.Text) {
 						where = "after-last"
 					}
+					// two narrow situations recorded as findings of their own (see known_findings.json):
+					// the cursor in the blanks that lead the first line of the file (in front of the first token, where the
+					// root body's range has not begun), and the cursor right behind a bracket left open at the end of the file
+					if first := firstTokenByte(cs.Text); isPosKindP(b.q.Kind) && b.q.Pos.Byte < first && strings.Contains(b.s+sb, "PosOutOfRangeError") {
+						where += ":cursor-in-leading-blanks-of-the-file"
+					} else if isPosKindP(b.q.Kind) && where == "after-last" && behindOpenBracketAtEOF(cs.Text, b.q.Pos.Byte) {
+						where += ":cursor-behind-bracket-left-open-at-end-of-file"
+					}
 					c.Add(&report.Violation{Clause: "result-does-not-move-with-text", Site: kindClass(b.q.Kind) + ":" + kind + ":" + where, Check: "c18", SchemaID: cs.Entry.ID, Files: cs.Files(), Query: report.J(b.q),
 						Extra:  report.J(map[string]any{"insert_at": ip, "inserted": ins}),
 						Detail: fmt.Sprintf("%s: inserting %q at byte %d changes the result beyond shifting positions\n original:   %s\n translated: %s\nfile:\n%s", b.q, shortText(ins), ip, diffWindow(b.s, sb), diffWindow(sb, b.s), cs.Text)})
@@ -260,4 +268,28 @@ func shortText(s string) string {
 		return s
 	}
 	return fmt.Sprintf("%s...(%d bytes)...%s", s[:20], len(s), s[len(s)-8:])
+}
+
+// firstTokenByte: the offset of the first token of the file that is neither a newline nor a comment.
+func firstTokenByte(text string) int {
+	toks, _ := hclsyntax.LexConfig([]byte(text), "main.tf", hcl.InitialPos)
+	for _, t := range toks {
+		if t.Type != hclsyntax.TokenNewline && t.Type != hclsyntax.TokenComment {
+			return t.Range.Start.Byte
+		}
+	}
+	return len(text)
+}
+
+// behindOpenBracketAtEOF: pos stands right behind an opening bracket and nothing but blanks and newlines follow.
+func behindOpenBracketAtEOF(text string, pos int) bool {
+	if pos <= 0 || pos > len(text) {
+		return false
+	}
+	switch text[pos-1] {
+	case '{', '[', '(':
+	default:
+		return false
+	}
+	return strings.TrimSpace(text[pos:]) == ""
 }
